@@ -36,6 +36,8 @@ UTypes ==
             bad   |-> FD(S, <<>>),
             echo  |-> FD(S, <<AD("s", S), AD("b", B), AD("i", I)>>),
             need  |-> FD(S, <<AD("x", NonNull(S))>>),
+            odd   |-> FD(Named("Any"), <<>>),              \* a value that is no member of the union the field declares,
+            odds  |-> FD(ListOf(Named("Any")), <<>>),      \* alone and between members
             pv    |-> FD(Named("P"), <<>>),                \* the same node: as a Go struct VALUE here (reflection strategy),
             pp    |-> FD(Named("Named"), <<>>),            \* as a pointer to that struct here
             ps    |-> FD(ListOf(Named("Named")), <<>>),
@@ -99,7 +101,7 @@ UTypes ==
     Solo |->       \* a union that holds only one of the implementors of Named
       [ kind |-> "UNION", ifaces |-> <<>>, members |-> <<"A", "P">>, fields |-> [x \in {} |-> 0] ] ]
 
-UNodeType == [ q |-> "Query", m |-> "Mutation", a1 |-> "A", a2 |-> "A", b1 |-> "B", p1 |-> "P" ]
+UNodeType == [ q |-> "Query", m |-> "Mutation", a1 |-> "A", a2 |-> "A", b1 |-> "B", p1 |-> "P", c1 |-> "C" ]
 
 UData ==
   [ q  |-> [ title |-> StrV("T"), me |-> NodeV("q"), mes |-> ListV(<<NodeV("q"), NullV>>), a |-> NodeV("a1"), nul |-> NullV,
@@ -113,6 +115,7 @@ UData ==
              bad   |-> ErrV("bad fails"),
              echo  |-> V("echo", 0),
              need  |-> V("echo", 0), obj |-> V("echo", 0), ids |-> V("echo", 0),
+             odd |-> NodeV("c1"), odds |-> ListV(<<NodeV("a1"), NodeV("c1"), NodeV("b1")>>),
              pv |-> NodeV("p1"), pp |-> NodeV("p1"), ps |-> ListV(<<NodeV("p1"), NodeV("b1"), NodeV("p1")>>) ],
     m  |-> [ set |-> V("echo", 0), a |-> NodeV("a2") ],
     a1 |-> [ name |-> StrV("a1"), n |-> IntV(1), peer |-> NodeV("b1"), self |-> NodeV("a1"),
@@ -121,6 +124,7 @@ UData ==
     a2 |-> [ name |-> StrV("a2"), n |-> IntV(2), peer |-> NodeV("b1"), self |-> NodeV("a2"),
              kids |-> ListV(<<>>), boom |-> ErrV("boom fails"), many |-> V("errs", 3), half |-> V("errval", "part"), nest |-> V("errsn", 1), say |-> V("echo", 0),
              wrong |-> StrV("n/a"), flags |-> ListV(<<>>), tag |-> V("echo", 0) ],
+    c1 |-> [ only |-> StrV("c1") ],
     b1 |-> [ name |-> StrV("b1"), flag |-> BoolV(TRUE), peer |-> NodeV("a1"), say |-> V("echo", 0) ],
     p1 |-> [ name |-> StrV("p1"), peer |-> NullV, say |-> StrV("hi"), n |-> IntV(5), stamp |-> StrV("st"), rank |-> IntV(3), code |-> StrV("c9"), note |-> StrV("nt") ] ]
 
@@ -148,7 +152,7 @@ UNoMut == [UExec EXCEPT !.types = Without(@, "Mutation"), !.nodeType = Without(@
 \* U with the resolver calls in `faults` (<<node, field>>) made to fail and the list accessors
 \* (<<node, field, index as string>>) made to fail  (C06)
 WithFaults(U, faults) ==
-  [U EXCEPT !.nth = {f \in faults : Len(f) = 3},
+  [U EXCEPT !.nth = {f \in faults : Len(f) = 3} \cup {f \in faults : Len(f) = 2 /\ f[1] = "$root"},   \* (<<"$root", kind>>: that operation root is refused)
             !.data = [nd \in DOMAIN U.data |->
                         [f \in DOMAIN U.data[nd] |->
                            IF <<nd, f>> \in faults THEN ErrV("injected") ELSE U.data[nd][f]]]]
